@@ -20,6 +20,10 @@ import AfkakProofs.Crc.RefetchDelivery
 import AfkakProofs.Crc.RefetchStep
 import AfkakProofs.Crc.BurstBytes
 import AfkakProofs.Crc.CorruptSetAny
+import AfkakProofs.Crc.TruncRefetch
+import AfkakProofs.Crc.RefetchParked
+import AfkakProofs.Crc.RefetchAtMax
+import AfkakProofs.Crc.MsbFirstWitness
 import AfkakProps.Open.C12
 /-!
 # C12 — corrupted or truncated message data is never delivered; decoding is linear
@@ -28,7 +32,10 @@ Property theorems only; helper lemmas live in `AfkakProofs/Crc/`.
 Bit order.  "Burst of span ≤ 32" means: the set bits of the error pattern lie within 32
 consecutive bits of the byte string read in the order CRC-32 consumes it — byte by byte, least
 significant bit of each byte first (`Afkak.Crc32.bitsOf`, `Afkak.Monitor.C12.burstWithin`).
-Every alteration confined to four consecutive bytes is such a burst, whatever the bit order.
+Every alteration confined to four consecutive bytes is such a burst, whatever the bit order
+(`C12_window_bytes` states that on bytes).  With the OTHER numbering (most significant bit of each
+byte first) a non-byte-aligned window of 32 bits is up to 40 bits wide in CRC order and detection is
+not guaranteed: `C12_burst_msb_first_counterexample`.
 -/
 namespace Afkak.Props.C12
 open Afkak.Crc32 Afkak.WireCost Afkak.C12 Afkak.Monitor.C12
@@ -163,6 +170,27 @@ example :
     e'.length = msg.length ∧ nonzero e' = true ∧ burstWithin e' 0 32 = true ∧
     ((e'.take 4).all (fun b => b == 0) || (e'.drop 4).all (fun b => b == 0)) = true := by
   decide +kernel
+
+/-- **The bit order matters.**  With bits numbered MOST significant bit of each byte first, a burst of
+    span ≤ 32 that is not byte-aligned is NOT always detected: the error pattern `05 8f f4 6a 70` on
+    the five value bytes of this 27-byte v1 message has its set bits within 31 consecutive bits in
+    that numbering (bits 181..211 of the message; 39 apart in CRC bit order, so outside the class of
+    `C12_burst`: no window of 32 bits in CRC order holds them), leaves the CRC-32 of the checksummed
+    region unchanged, and `_decode_message` yields the altered value for every nested-set decoder,
+    gunzip function and offset.  (Replayed on the real `KafkaCodec._decode_message`: same outcome.) -/
+theorem C12_burst_msb_first_counterexample :
+    let m : Msg := { magic := 1, attrs := 0, key := none, value := some [0, 0, 0, 0, 0], ts := some 0 }
+    let m' : Msg := { magic := 1, attrs := 0, key := none, value := some [0x05, 0x8f, 0xf4, 0x6a, 0x70], ts := some 0 }
+    let e : List UInt8 := [0, 0, 0, 0, 0, 0, 0, 0, 0, 0, 0, 0, 0, 0, 0, 0, 0, 0, 0, 0, 0, 0,
+      0x05, 0x8f, 0xf4, 0x6a, 0x70]
+    crcOk (encodeMessage m) = true ∧ e.length = (encodeMessage m).length ∧
+    (e.take 4).all (fun b => b == 0) = true ∧ nonzero e = true ∧
+    burstWithinMsb e 181 31 = true ∧
+    (∀ k, burstWithin (e.drop 4) k 32 = false) ∧
+    crc32 ((xorBytes (encodeMessage m) e).drop 4) = crc32 ((encodeMessage m).drop 4) ∧
+    ∀ (inner : List UInt8 → SetOut) (gz : Gz) (off : Int),
+      ∃ c, decodeMessage inner gz (some (xorBytes (encodeMessage m) e)) off = .out [(off, m')] none c 0 :=
+  msb_first_witness
 
 /-- **Four consecutive bytes, CRC level — no bit order involved.**  Two byte strings that differ only
     inside one window of at most four consecutive bytes have different CRC-32s: every prefix, every
@@ -421,6 +449,112 @@ theorem C12_refetch_model_step (cfg : Afkak.Consumer.Cfg) (k : Nat) (s : Afkak.C
         | some _ => some (Afkak.Consumer.step cfg s (.fetchOk k { msgs := [], tail := .small })).bufferSize
         | none => none) = true :=
   consumer_refetchOk_step cfg k s hc hq hr hb offs c hc0
+
+/-- **The at-maximum case, stated explicitly** (in `C12_refetch_model`, `C12_refetch_model_step` and
+    `C12_truncate_then_refetch` the argument `newB = none` makes `refetchOk` check the fetch position
+    only).  A running consumer with no block in progress whose buffer cannot grow (`grow = none`: it is
+    at `max_buffer_size`) receives a reply with no complete message and the fetch-size-too-small
+    ending.  On `step`: the `start()` Deferred is errbacked with `ConsumerFetchSizeTooSmall`
+    (`startD` becomes `called`, the observation `startFired (err tooSmall)` is in the trace), buffer
+    size and fetch position are unchanged, the request is cleared, and NO refetch is scheduled (the
+    retry call is what it was and no retry timer is set by this step).  The same fields for
+    `handleFetchResponse` with an arbitrary re-entrant API (second part). -/
+theorem C12_refetch_at_maximum (cfg : Afkak.Consumer.Cfg) (k : Nat) (s : Afkak.Consumer.St)
+    (hr : s.startD = .pending) (hb : s.msgBlock = false)
+    (hg : Afkak.Consumer.grow s.bufferSize cfg.bufMax = none) :
+    (s.crashed = false →
+      (s.requestD == .pending k .fetch false || s.requestD == .pending k .fetch true) = true →
+      let s' := Afkak.Consumer.step cfg s (.fetchOk k { msgs := [], tail := .small })
+      s'.startD = .called ∧ s'.bufferSize = s.bufferSize ∧ s'.fetchOffset = s.fetchOffset ∧
+      s'.retryCall = s.retryCall ∧ s'.requestD = .none ∧
+      .ob (.startFired (.err .tooSmall)) ∈ s'.out ∧
+      (∀ d, .ob (.setTimer .retry d) ∈ s'.out → .ob (.setTimer .retry d) ∈ s.out)) ∧
+    (∀ inner : Afkak.Consumer.Ops,
+      let s' := Afkak.Consumer.handleFetchResponse cfg inner k { msgs := [], tail := .small } s
+      s'.startD = .called ∧ s'.bufferSize = s.bufferSize ∧ s'.fetchOffset = s.fetchOffset ∧
+      s'.retryCall = s.retryCall ∧ s'.requestD = .none ∧
+      s'.out = .ob (.startFired (.err .tooSmall)) :: s.out) :=
+  ⟨fun hc hq => consumer_refetch_at_maximum_step cfg k s hc hq hr hb hg,
+   fun inner => consumer_refetch_at_maximum cfg inner k s hr hb hg⟩
+
+/-- non-vacuity of `grow = none`: a consumer whose buffer is at its maximum -/
+example : Afkak.Consumer.grow 10 (some 10) = none := by decide
+
+/-- **A reply that arrives while the previous block is still being processed** is parked behind
+    `_msg_block_d`: at that moment nothing is delivered and fetch position and buffer are untouched
+    (first part).  When the block finishes (`finishFull`, the `_msg_block_d` callback) the parked
+    reply is handled: for a reply that ended normally with complete messages ascending from the fetch
+    position, the position ends right after the last of them with the same buffer — `refetchOk` —
+    whatever the processor does, for the model's API at every depth `n` (second part). -/
+theorem C12_refetch_after_delivery_parked (cfg : Afkak.Consumer.Cfg) (n k : Nat) (s : Afkak.Consumer.St)
+    (m : Afkak.Consumer.Msg) (ms : List Afkak.Consumer.Msg)
+    (hr : (s.startD == .none) = false) (hb : s.msgBlock = true)
+    (hp : ((m :: ms).map (·.off)).Pairwise (· < ·)) :
+    let r : Afkak.Consumer.Reply := { msgs := m :: ms, tail := .done }
+    let s1 := Afkak.Consumer.handleFetchResponse cfg (Afkak.Consumer.opsN cfg n) k r s
+    (s1.fetchOffset = s.fetchOffset ∧ s1.bufferSize = s.bufferSize ∧ s1.parked = some r ∧
+      s1.msgBlock = true ∧ s1.startD = s.startD) ∧
+    (∀ t : Afkak.Consumer.St, t.msgBlock = true → t.parked = some r → (t.startD == .none) = false →
+      t.fetchOffset ≤ m.off →
+      let t' := Afkak.Consumer.finishFull cfg (Afkak.Consumer.opsN cfg n) t
+      refetchOk ((m :: ms).map (·.off)) (ms.length + 1) t.fetchOffset t'.fetchOffset t.bufferSize cfg.bufMax 1
+        (some t'.bufferSize) = true) := by
+  intro r s1
+  refine ⟨?_, ?_⟩
+  · have hs1 : s1 = { s with retryDelay := cfg.retryInit, attempts := 1, parked := some r, requestD := .parked k } := by
+      show Afkak.Consumer.handleFetchResponse cfg _ k r s = _
+      unfold Afkak.Consumer.handleFetchResponse
+      simp [hr, hb]
+    rw [hs1]
+    exact ⟨rfl, rfl, rfl, hb, rfl⟩
+  · intro t h1 h2 h3 h4
+    exact consumer_refetch_after_delivery_parked cfg _ (opsN_k cfg n) t m ms h1 h2 h3 hp h4
+
+/-- **C12's second sentence, end to end across the decoder model and the consumer model.**  The first
+    `c` bytes of an encoded set of plain messages with ascending offsets (from the consumer's fetch
+    position on) are iterated by the decoder model; its outcome — the messages yielded and whether it
+    ended normally or with `ConsumerFetchSizeTooSmall` (`replyOf`) — is the fetch reply handed to the
+    consumer model's transition function in any state that has the fetch outstanding, is running and
+    has no block in progress.  Then BOTH monitors hold, with the same number `n` of complete messages
+    computed from the entry lengths: the decoder yielded exactly the `n` complete messages
+    (`truncOk`), and the consumer's next fetch starts right after the last of them with the same
+    buffer — or, when `n = 0 < c`, at the same offset with the buffer enlarged as `grow` says, failing
+    `start` only at the maximum (`refetchOk`): nothing is skipped, whatever the processor does. -/
+theorem C12_truncate_then_refetch (gz : Gz) (depth : Nat) (pid : Int × Msg → Nat)
+    (other : Err → Afkak.Consumer.ErrKind × Nat) (cfg : Afkak.Consumer.Cfg) (k : Nat)
+    (s : Afkak.Consumer.St) (ms : List (Int × Msg)) (c : Nat)
+    (hpl : ∀ om ∈ ms, plainEntry om = true) (hc : c ≤ (encodeSet ms).length)
+    (hasc : (ms.map (·.1)).Pairwise (· < ·)) (hfo : ∀ om, ms.head? = some om → s.fetchOffset ≤ om.1)
+    (hcr : s.crashed = false)
+    (hq : (s.requestD == .pending k .fetch false || s.requestD == .pending k .fetch true) = true)
+    (hr : s.startD = .pending) (hb : s.msgBlock = false) :
+    let out := decodeSet gz depth ((encodeSet ms).take c)
+    let s' := Afkak.Consumer.step cfg s (.fetchOk k (replyOf pid other out))
+    let n := completeCount (ms.map entryLen) c
+    truncOk (ms.map entryLen) ms c out.msgs out.err = true ∧
+    refetchOk (ms.map (·.1)) n s.fetchOffset s'.fetchOffset s.bufferSize cfg.bufMax c
+      (if n = 0 ∧ 0 < c ∧ Afkak.Consumer.grow s.bufferSize cfg.bufMax = none then none
+       else some s'.bufferSize) = true :=
+  truncate_then_refetch gz depth pid other cfg k s ms c hpl hc hasc hfo hcr hq hr hb
+
+/-- non-vacuity: two plain messages at offsets 7 and 8 (ascending, from the position `start(7)` sets);
+    the state after `start(7)` meets the state hypotheses (see the example after
+    `C12_refetch_after_delivery_step` for `crashed`/`startD`/`msgBlock`) -/
+example :
+    let ms : List (Int × Msg) :=
+      [(7, { magic := 0, attrs := 0, key := some [1, 2], value := some [3], ts := none }),
+       (8, { magic := 1, attrs := 8, key := none, value := some [], ts := some 1700000000000 })]
+    let cfg : Afkak.Consumer.Cfg := { group := false, autoN := 0, autoS := 0, bufInit := 10, bufMax := some 10, retryInit := 1, retryMax := 1, maxAttempts := 0, reset := none }
+    let s := Afkak.Consumer.run cfg [] [.start 7]
+    (∀ om ∈ ms, plainEntry om = true) ∧ (ms.map (·.1)).Pairwise (· < ·) ∧
+    (∀ om, ms.head? = some om → s.fetchOffset ≤ om.1) ∧ s.crashed = false ∧
+    (s.requestD == .pending 0 .fetch false || s.requestD == .pending 0 .fetch true) = true ∧
+    s.startD = .pending ∧ s.msgBlock = false := by
+  refine ⟨by decide +kernel, by decide, ?_, by decide +kernel, by decide +kernel, by decide +kernel, by decide +kernel⟩
+  intro om h
+  simp only [List.head?_cons, Option.some.injEq] at h
+  subst h
+  decide +kernel
 
 /-- As stated — for an ARBITRARY `inner : Ops` — `Open.C12_refetch_after_delivery` is false: `Ops` is
     any four functions on states, e.g. a `stop` that rewinds the fetch position.  That is not afkak's
@@ -769,6 +903,7 @@ C12_burst_in_set_wrapped
 C12_burst_monitor
 C12_burst_any_position_counterexample
 C12_burst_any_position_partial
+C12_burst_msb_first_counterexample
 C12_window_crc
 C12_window_bytes
 C12_burst_nonstraddling_in_set
@@ -787,6 +922,9 @@ C12_refetch_after_delivery_model
 C12_refetch_after_delivery_partial
 C12_refetch_after_delivery_step
 C12_refetch_model_step
+C12_refetch_at_maximum
+C12_refetch_after_delivery_parked
+C12_truncate_then_refetch
 C12_refetch_after_delivery_counterexample
 C12_linear_readers
 C12_linear_api_versions
